@@ -311,3 +311,41 @@ func c15Custom(rc *RunCtx, rep *Report) {
 	rep.Extra["history_depth"] = depth
 	rep.Notes["wall_ms"] = time.Since(start).Milliseconds()
 }
+
+func init() {
+	replayCustom["C15/custom"] = func(rf *ReplayFile, path string) int {
+		for _, w := range c15Worlds() {
+			if w.name != rf.Attrs["world"] {
+				continue
+			}
+			for p := range w.probes {
+				if w.probes[p].name != rf.Attrs["probe"] {
+					continue
+				}
+				for _, h := range rf.Choices {
+					if h < 0 || h >= len(w.history) {
+						fmt.Println("replay: history index out of range")
+						return 2
+					}
+				}
+				return replayReport(rf, path, func() ([][2]string, string) {
+					base, _, _, problem := c15Run(w, nil, p)
+					if problem != "" {
+						return [][2]string{{"harness.problem", problem}}, ""
+					}
+					out, key, dp, _ := c15Run(w, rf.Choices, p)
+					var fails [][2]string
+					if out != base {
+						fails = append(fails, [2]string{"C15.outcome-depends-on-history", fmt.Sprintf("probe %s after history %v\n fresh:   %s\n after:   %s", w.probes[p].name, rf.Labels, short(base), short(out))})
+					}
+					if dp > 0 {
+						fails = append(fails, [2]string{"C15.pool-double-put", fmt.Sprintf("a pool element was Put twice during history %v + probe %s", rf.Labels, w.probes[p].name)})
+					}
+					return fails, out + key
+				})
+			}
+		}
+		fmt.Println("replay: unknown world / probe")
+		return 2
+	}
+}
